@@ -147,21 +147,22 @@ def Genuine (o : ObjCfg) (s : Sym) : Prop :=
     hypotheses of C01 / C02 / C16): look-ahead `2 * MAX_PREALLOCATED_BLOCKS` and
     `object_max_cache_size` for any set of its blocks -/
 def Fits (rc : RxCfg) (o : ObjCfg) : Prop :=
-  o.ks.size ≤ rc.maxLook ∧ ∀ got sbn, allocBytes o.blen got + o.blen.getD sbn 0 ≤ rc.maxSize
+  o.ks.size ≤ rc.maxLook ∧
+  ∀ (got : List (Nat × Nat)) (sbn : Nat), got.any (fun x => x.1 == sbn) = false →
+    allocBytes o.blen got + o.blen.getD sbn 0 ≤ rc.maxSize
 
-theorem foldl_zero (l : List Nat) : (l.map (fun _ => 0)).foldl (· + ·) 0 = 0 := by
+theorem sumOver_empty (l : List Nat) : sumOver #[] l = 0 := by
   induction l with
   | nil => rfl
-  | cons x xs ih => simpa using ih
+  | cons x xs ih => simp [sumOver, ih]
 
 /-- an object whose blocks the receiver accounts as 0 bytes (or: no per-block accounting) fits any cache -/
 theorem fits_of_noacct (rc : RxCfg) (o : ObjCfg) (h1 : o.ks.size ≤ rc.maxLook) (h2 : o.blen = #[]) : Fits rc o := by
   refine ⟨h1, ?_⟩
-  intro got sbn
+  intro got sbn _
   unfold allocBytes
-  rw [h2]
-  simp only [Array.getD_eq_getD_getElem?, List.getElem?_toArray, List.getElem?_nil, Option.getD_none]
-  rw [foldl_zero]; omega
+  rw [h2, sumOver_empty]
+  simp
 
 theorem settle_flags (o : ObjCfg) (rx : ORx) :
     (settle c.canDecode o rx).rx.attached = rx.attached ∧
@@ -241,15 +242,22 @@ theorem pushCore_spec (rc : RxCfg) (o : ObjCfg) (rx : ORx) (s : Sym) (P : List S
       rcases List.mem_cons.mp hq with rfl | hq
       · exact Or.inr h3
       · exact hcov q hq hw
-    · have hal : ¬ (allocBytes o.blen rx.got + o.blen.getD s.sbn 0 > rc.maxSize) := by
-        have := hfit.2 rx.got s.sbn; omega
-      have hr : r = settle c.canDecode o
+    · have hr : r = settle c.canDecode o
           { rx with got := if !(rx.got.contains (s.sbn, s.esi)) then (s.sbn, s.esi) :: rx.got else rx.got } := by
-        simp [r0, h1, h2, h3, hk, hesi]
-        intros
-        have := hfit.2 rx.got s.sbn
-        simp only [Array.getD_eq_getD_getElem?] at this
-        omega
+        by_cases hfr : rx.got.any (fun x => x.1 == s.sbn) = true
+        · simp [r0, h1, h2, h3, hk, hesi, hfr]
+        · have hfr' : rx.got.any (fun x => x.1 == s.sbn) = false := by
+            cases hx : rx.got.any (fun x => x.1 == s.sbn) with
+            | false => rfl
+            | true => exact absurd hx hfr
+          have hal := hfit.2 rx.got s.sbn hfr'
+          have hcond : (decide ((distinctSbns rx.got).length ≥ 2) &&
+              decide (allocBytes o.blen rx.got + o.blen.getD s.sbn 0 > rc.maxSize)) = false := by
+            have : decide (allocBytes o.blen rx.got + o.blen.getD s.sbn 0 > rc.maxSize) = false := by
+              simp only [decide_eq_false_iff_not]; omega
+            rw [this]; simp
+          simp only [r0, h1, h2, h3, hfr', Bool.not_false, Bool.true_and, hcond, Bool.false_eq_true, ↓reduceIte, hk, hesi,
+            decide_true, Bool.true_or]
       rw [hr]
       -- the state before `settle` covers s :: P
       have hcov' : Cov c o { rx with got := if !(rx.got.contains (s.sbn, s.esi)) then (s.sbn, s.esi) :: rx.got else rx.got } (s :: P) := by
